@@ -18,7 +18,7 @@ from pyvc.solve import Obligation
 
 PID = "C09"
 DI = "pynenc/invocation/dist_invocation.py"
-PARTS = [("contracts.c11", ["pynenc.runner.thread_runner:ThreadRunner._waiting_for_results",
+PARTS = [("contracts.c09_runner", ["pynenc.runner.thread_runner:ThreadRunner._waiting_for_results",
                             "pynenc.runner.thread_runner:ThreadRunner._reclaim_available_slots",
                             "pynenc.runner.thread_runner:ThreadRunner._on_start"])]
 
